@@ -2929,8 +2929,8 @@ class KmipEngine(object):
         supported_versions = list()
 
         if len(payload.protocol_versions) > 0:
-            for version in payload.protocol_versions:
-                if version in self._protocol_versions:
+            for version in self._protocol_versions:
+                if version in payload.protocol_versions:
                     supported_versions.append(version)
         else:
             supported_versions = self._protocol_versions
